@@ -50,6 +50,23 @@ type Trace struct {
 	Case *Case
 	Ops  []OpOut
 	RT   *RT
+	// InfoChanged: the Inputs / Outputs slices read from an Info struct
+	// after one call were changed by a later call (a caller that keeps what
+	// it was given must not see it change)
+	InfoChanged string
+}
+
+// keptInfo is what a caller keeps of a filled Info struct: the slices.
+type keptInfo struct {
+	op   int
+	ins  []*dig.Input
+	outs []*dig.Output
+	a, b []string
+}
+
+func (rt *RT) keepInfo(op int, ins []*dig.Input, outs []*dig.Output) {
+	a, b := renderIO(ins, outs)
+	rt.kept = append(rt.kept, keptInfo{op, ins, outs, a, b})
 }
 
 // infoSlots holds the Info structs that several ops of a case share.
@@ -312,6 +329,13 @@ func Run(c *Case, ro RunOpts) *Trace {
 			}
 		}
 	}
+	for _, k := range rt.kept {
+		a, b := renderIO(k.ins, k.outs)
+		if fmt.Sprint(a, b) != fmt.Sprint(k.a, k.b) {
+			tr.InfoChanged = fmt.Sprintf("the Inputs/Outputs slices obtained from op %d (%s) read %v %v then and %v %v at the end of the history", k.op, c.Ops[k.op].Short(), k.a, k.b, a, b)
+			break
+		}
+	}
 	return tr
 }
 
@@ -374,6 +398,7 @@ func doProvide(rt *RT, sc scopeAPI, op Op, out *OpOut) error {
 		if o.CB && op.F != nil {
 			id := op.F.ID
 			cbPanic := o.CBPanic
+			cbInvoke := o.CBInvoke
 			popts = append(popts, dig.WithProviderCallback(func(ci dig.CallbackInfo) {
 				rt.cbCalls[id]++
 				boom := cbPanic && rt.cbCalls[id] == 1
@@ -381,6 +406,7 @@ func doProvide(rt *RT, sc scopeAPI, op Op, out *OpOut) error {
 				if boom {
 					panic(&CBPanicVal{id})
 				}
+				rt.cbNested(id, cbInvoke, ci.Error)
 			}))
 		}
 		if o.CBNil && !o.CB {
@@ -415,6 +441,7 @@ func doProvide(rt *RT, sc scopeAPI, op Op, out *OpOut) error {
 		out.InfoID = int(info.ID)
 		out.InfoTouched = infoSnap(int(info.ID), info.Inputs, info.Outputs) != pre
 		out.InfoInputs, out.InfoOutputs = renderIO(info.Inputs, info.Outputs)
+		rt.keepInfo(rt.curOp, info.Inputs, info.Outputs)
 	}
 	return err
 }
@@ -441,6 +468,7 @@ func doDecorate(rt *RT, sc scopeAPI, op Op, out *OpOut) error {
 		if o.CB && op.F != nil {
 			id := op.F.ID
 			cbPanic := o.CBPanic
+			cbInvoke := o.CBInvoke
 			dopts = append(dopts, dig.WithDecoratorCallback(func(ci dig.CallbackInfo) {
 				rt.cbCalls[id]++
 				boom := cbPanic && rt.cbCalls[id] == 1
@@ -448,6 +476,7 @@ func doDecorate(rt *RT, sc scopeAPI, op Op, out *OpOut) error {
 				if boom {
 					panic(&CBPanicVal{id})
 				}
+				rt.cbNested(id, cbInvoke, ci.Error)
 			}))
 		}
 	}
@@ -465,6 +494,7 @@ func doDecorate(rt *RT, sc scopeAPI, op Op, out *OpOut) error {
 		out.InfoID = int(info.ID)
 		out.InfoTouched = infoSnap(int(info.ID), info.Inputs, info.Outputs) != pre
 		out.InfoInputs, out.InfoOutputs = renderIO(info.Inputs, info.Outputs)
+		rt.keepInfo(rt.curOp, info.Inputs, info.Outputs)
 	}
 	return err
 }
@@ -496,6 +526,7 @@ func doInvoke(rt *RT, sc scopeAPI, op Op, out *OpOut) error {
 		out.HasInfo = true
 		out.InfoTouched = infoSnap(0, info.Inputs, nil) != pre
 		out.InfoInputs, _ = renderIO(info.Inputs, nil)
+		rt.keepInfo(rt.curOp, info.Inputs, nil)
 	}
 	return err
 }
